@@ -83,6 +83,20 @@ func c01OperatorHistory(c *Ctx) {
 		f = newRandomLineageFamily(r, o)
 		c.Count("histories.random_lineages", 1)
 	}
+	dense := false
+	if f == nil && c.Case%8 == 2 {
+		// small node sets on which the same node pairs are hit again and again: long chains of add-link / toggle / re-enable
+		// on one genome with the innovation record kept (the same link as a recurrent and as a plain one, re-invented after
+		// a toggle, ...)
+		sp := genSpec(r)
+		sp.Inputs, sp.Outputs, sp.Hidden = 1+r.Intn(2), 1, 1+r.Intn(2)
+		sp.GeneProb = 0.6
+		o.RecurOnlyProb = pick(r, 0.3, 0.5, 0.7)
+		o.NewLinkTries = 30
+		f = newFamilyFrom(buildGenome(r, sp, 1), "built-small-dense", o)
+		dense = true
+		c.Count("histories.small_dense", 1)
+	}
 	if f == nil {
 		f = newFamily(r, o)
 	}
@@ -164,13 +178,18 @@ func c01OperatorHistory(c *Ctx) {
 			// sometimes a chain of mutators works on the same genome object, the innovation record kept (add-link, toggle,
 			// add-link ... on one genome within one generation)
 			chain := 1
-			if r.Intn(4) == 0 {
-				chain = 2 + r.Intn(4)
+			if r.Intn(3) == 0 || dense {
+				chain = 2 + r.Intn(7)
+				if dense {
+					chain = 6 + r.Intn(10)
+				}
 				c.Count("histories.in_place_chains", 1)
 			}
 			for k := 0; k < chain; k++ {
-				if k > 0 {
-					op = pick(r, opAddLink, opAddLink, opToggleEnable, opToggleEnable, opReEnable, opAddNode, opConnectSensors, opLinkWeights)
+				if dense {
+					op = pick(r, opAddLink, opAddLink, opAddLink, opToggleEnable, opToggleEnable, opReEnable)
+				} else if k > 0 {
+					op = pick(r, opAddLink, opAddLink, opAddLink, opToggleEnable, opToggleEnable, opToggleEnable, opReEnable, opAddNode, opConnectSensors, opLinkWeights)
 				}
 				ok, err := f.applyMutation(op, d, r)
 				record(fmt.Sprintf("%s->%v", op, ok))
